@@ -556,3 +556,48 @@ def check_C14(ctx):
         extra_cov=dict(programs=nprog, disagreements_checked=ctx.trace_stats['calls'], variants=len(variants), kernel_file_variant_pairs=len(pairs),
                        threshold_vectors_model_checked=thr_checked, not_executable=not_exec,
                        samples=ctx.samples[:4] or [{'variant': variants[0]}]))
+
+
+# ------------------------------------------------------------------------------------------------ C15
+def check_C15(ctx):
+    import re, random
+    from verif import sh
+    q = ctx.tier == 'quick'
+    scheds = []
+    for n, segs in ([(2, 4), (3, 2)] if q else [(2, 5), (3, 3), (4, 2)]):
+        r = ctx.tlc_model('Threads', cfg_text=cfg(consts={'N': n, 'SEGS': segs, 'HIDDEN': 'FALSE', 'EMIT': 'TRUE'}, inv=('ScheduleIndependent', 'EmitSched')), name=f'Threads-{n}x{segs}', workers=1)
+        ctx.model_must_hold(r, what='(results independent of the interleaving when only documented globals are shared)')
+        for m in re.findall(r'<<"SCHED", <<([0-9, ]+)>>', r['out']): scheds.append(''.join(x.strip() for x in m.split(',')))
+    r = ctx.tlc_model('FatInit', cfg_text=cfg(consts={'Threads': '{1, 2}', 'NF': 2, 'NT': 2, 'Ops': 2, 'Variant': '"ok"'},
+                      inv=('AlwaysDecided', 'SlotsSane', 'FinalVector', 'FlagImpliesInstalled')), name='FatInit')
+    ctx.model_must_hold(r, what='(lazy dispatch initialisation under every interleaving)')
+    scheds = sorted(set(scheds)); random.Random(ctx.seed).shuffle(scheds)
+    if q: scheds = scheds[:120]
+    b = ctx.build('default')
+    sf = os.path.join(ctx.scratch, 'sched.lst'); open(sf, 'w').write('\n'.join(scheds) + '\n')
+    paths = ctx.run_driver(b, 'c15', shards=8, extra=f'file={sf}', timeout=900)
+    # write inventory: the global-write detector runs inside every driver; these cover the whole API surface (single-threaded, deterministic)
+    for d, shards in [('hist', 8), ('alias', 8), ('c13', 4), ('c12', 4), ('c16_prime', 4), ('c16_comb', 2), ('c18_misc', 2), ('c19_hist', 4), ('c17_stream', 4), ('c06_mpz', 4), ('c08_powm', 4), ('c07_mpz', 4)]:
+        paths += ctx.run_driver(b, d, shards=shards, timeout=900, tier='quick')
+    ctx.validate(paths)
+    ctx.notes.append(f'schedules enumerated by TLC and forced on the real library: {len(scheds)}')
+    tsan_reports = 0
+    if not q:
+        # auxiliary observation channel: the same workload unscheduled on a ThreadSanitizer build of library + harness
+        bt = ctx.build('tsan')
+        out_path = os.path.join(ctx.scratch, 'tsan.ndjson')
+        rc, out = sh([os.path.join(bt, 'verif-hx'), 'c15', 'thorough', str(ctx.seed), out_path, '0/1,free'], timeout=1500, env={'TSAN_OPTIONS': 'halt_on_error=0 exitcode=0'})
+        tsan_reports = out.count('WARNING: ThreadSanitizer')
+        if tsan_reports:
+            rp = ctx.save_replay('tsan-report.txt', out[-30000:])
+            ctx.violation('C15', f'ThreadSanitizer reported {tsan_reports} data race(s) inside the library', rp)
+        ctx.validate([out_path])
+        ctx.notes.append(f'ThreadSanitizer free-running pass: {tsan_reports} reports')
+    return ctx.finish('exploration',
+        rule='schedules = every interleaving of N threads x S yield-point segments enumerated by TLC (Threads.tla; quick: a seeded 120 of them), forced on the real library by a cooperative '
+             'scheduler that lets exactly one thread run between yield points (every entry into the memory functions), for operands below and above the 65536-byte TMP_ALLOC stack/heap switch; '
+             'each thread\'s recorded calls are validated against the sequential MPIR.tla and its private random stream must equal the serial stream. Write inventory: the global-write '
+             'detector (every writable chunk libmpir contributes to the static executable is snapshotted around every call) runs in 12 drivers covering the API; MPIR!GlobalWrite admits only '
+             'the documented globals. thorough: the workload also runs unscheduled on a ThreadSanitizer build. distinct = distinct (schedule, thread, call); non-trivial = operand of two limbs or more',
+        explanation='schedules at yield-point granularity only; races inside a segment are visible only to the TSan pass',
+        extra_cov=dict(schedules=len(scheds), tsan_reports=tsan_reports))
